@@ -900,6 +900,14 @@ pub fn run_history(rep: &mut Rep, cfg: &MonCfg, sut: &mut dyn Sut, ops: &[TOp], 
                     rep.violation(format!("{name}:get-beyond-capacity-answered"), json!({"position": i, "depth": depth}));
                 }
             }
+            // subtree roots the ideal tree does not have (level below the leaves, position beyond capacity): refused
+            for (n, i) in [(depth + 1, 0usize), (depth + 2, cap - 1), (depth, cap), (depth / 2, cap), (0, cap + 1), (depth + 1, cap)] {
+                rep.ev();
+                if let Ok(Some(_)) = sut.subtree(n, i) {
+                    rep.violation(format!("{name}:subtree-root-outside-the-tree-answered"), json!({"level": n, "position": i, "depth": depth}));
+                }
+            }
+            rep.stratum(format!("subtree-queries-outside-the-tree|{name}|d{depth}"));
         }
         // ---- empties (C15)
         if cfg.focus == Focus::Empties {
@@ -1065,6 +1073,16 @@ fn check_proof(rep: &mut Rep, m: &Model, sut: &mut dyn Sut, i: usize, name: &str
         let mut t = parts.clone();
         t[l].1 ^= 1;
         tampers.push((format!("bit-flip@{l}"), t));
+    }
+    // proofs with a level missing or added (they fold to something that is not the root)
+    if depth > 1 {
+        tampers.push(("level-dropped@top".into(), parts[..depth - 1].to_vec()));
+        tampers.push(("level-dropped@bottom".into(), parts[1..].to_vec()));
+    }
+    {
+        let mut t = parts.clone();
+        t.push((parts[depth - 1].0, 0));
+        tampers.push(("level-added@top".into(), t));
     }
     // control: the untampered parts are accepted
     tampers.push(("untampered".into(), parts.clone()));
